@@ -1,7 +1,7 @@
-\* edge emission, parameters focus (thorough)
-CONSTANTS N = 3  Par = {"p", "q"}  NVal = 2  NGrid = 2  MaxDepth = 2  MaxLevel = 4
+\* edge emission, parameters focus, 5 actions deep (thorough)
+CONSTANTS N = 2  Par = {"p", "q"}  NVal = 2  NGrid = 2  MaxDepth = 2  MaxLevel = 6
           GridSlot = "stack"  PickleSerial = "fresh"
-CONSTANTS Keeps <- KeepsFull  Acts <- ActsParams  Parent0 <- ParentA  Cls0 <- ClsA
+CONSTANTS Keeps <- KeepsTwo  Acts <- ActsParams  Parent0 <- ParentD  Cls0 <- ClsD
           ParOf <- McParOf  GridCls <- McGridCls  MatCls <- McMatCls
 ACTION_CONSTRAINT Emit
 INIT Init
